@@ -13,14 +13,13 @@ Every statement quantifies over all widths `1 ≤ w ≤ 64` and all operands.  E
 model operation returns `some (ofBV (<BitVec operation>))`; since `ofBV _` is reduced, each also
 says that the result is reduced.  `none` is CRAB_ERROR or C++ undefined behaviour.
 
-State of the code: after the fixes `abc4058` (ashr), `74d5f3a` (sdiv by -1), `df282ba`
-(keep_lower(63), sext(0)) every operation is an equality with `BitVec`; what remains outside is
-* shift amounts `≥ 64` (`<<`, `lshr`, `ashr`), and `ashr` of a negative value by more than the
-  width: the C++ shifts a `uint64_t` by 64 or more (undefined behaviour; model `none`,
-  `C13.shift_amount_ge_64_undefined`);
-* construction from a big integer outside int64: CRAB_ERROR (documented limit, `C13.ofZ_refuses`);
-* division / remainder by zero, width 0 or > 64, widening beyond 64 bits, `keep_lower(0)`:
-  CRAB_ERROR (never a wrong value).
+State of the code: after the fixes to ashr, sdiv by -1, keep_lower(63) / sext(0) and to the
+shifts by the bitwidth or more, every operation is an equality with `BitVec` for ALL operands
+(shift amounts included: `<<` / `lshr` give 0 and `ashr` the sign fill when the amount is the
+width or more, which is what `BitVec` does).  What remains is CRAB_ERROR, never a wrong value:
+* construction from a big integer outside int64 (documented limit, `C13.ofZ_refuses`);
+* division / remainder by zero, width 0 or > 64, widening beyond 64 bits, `keep_lower(0)`,
+  operands of different widths.
 -/
 open Crab Crab.WrapInt
 
@@ -142,31 +141,23 @@ theorem C13.not_eq_bitvec (w : Nat) (h1 : 1 ≤ w) (hw : w ≤ 64) (x : BitVec w
   rw [xor_ofBV]
   simp
 
-/-! ## shifts (the amount is a wrapint of the same width) -/
+/-! ## shifts (the amount is a wrapint of the same width; every amount, also ≥ w and ≥ 64) -/
 
-theorem C13.shl_eq_bitvec (w : Nat) (hw : w ≤ 64) (x y : BitVec w) (hs : y.toNat < w) :
-    shl (ofBV x) (ofBV y) = some (ofBV (x <<< y)) := shl_ofBV hw x y (by omega)
-theorem C13.lshr_eq_bitvec (w : Nat) (hw : w ≤ 64) (x y : BitVec w) (hs : y.toNat < w) :
-    lshr (ofBV x) (ofBV y) = some (ofBV (x >>> y)) := lshr_ofBV x y (by omega)
-/-- also right for amounts in [w, 64) (result 0); amounts ≥ 64 shift a uint64 by ≥ 64
-    (undefined behaviour, model `none`) -/
-theorem C13.shl_lshr_amount_ge_width (w : Nat) (hw : w ≤ 64) (x y : BitVec w) (hs : y.toNat < 64) :
-    shl (ofBV x) (ofBV y) = some (ofBV (x <<< y)) ∧ lshr (ofBV x) (ofBV y) = some (ofBV (x >>> y)) :=
-  ⟨shl_ofBV hw x y hs, lshr_ofBV x y hs⟩
-theorem C13.shift_amount_ge_64_undefined (w : Nat) (x y : BitVec w) (hs : 64 ≤ y.toNat) :
-    ubShift (ofBV x) (ofBV y) = true ∧ shl (ofBV x) (ofBV y) = none ∧ lshr (ofBV x) (ofBV y) = none := by
-  have : ubShift (ofBV x) (ofBV y) = true := by simp [ubShift]; omega
-  simp [shl, lshr, this]
-
-theorem C13.ashr_eq_bitvec (w : Nat) (h1 : 1 ≤ w) (hw : w ≤ 64) (x y : BitVec w) (hs : y.toNat < w) :
-    ashr (ofBV x) (ofBV y) = some (ofBV (x.sshiftRight' y)) :=
-  ashr_ofBV h1 hw x y (by omega) (by omega)
-/-- also right for an amount equal to the width (when that is < 64); amounts ≥ 64 are undefined -/
-theorem C13.ashr_amount_eq_width (w : Nat) (h1 : 1 ≤ w) (hw : w ≤ 64) (x y : BitVec w)
-    (hs : y.toNat ≤ w) (hs64 : y.toNat < 64) :
-    ashr (ofBV x) (ofBV y) = some (ofBV (x.sshiftRight' y)) := ashr_ofBV h1 hw x y hs hs64
-theorem C13.ashr_amount_ge_64_undefined (w : Nat) (x y : BitVec w) (hs : 64 ≤ y.toNat) :
-    ubAshr (ofBV x) (ofBV y) = true ∧ ashr (ofBV x) (ofBV y) = none := ashr_ub x y hs
+theorem C13.shl_eq_bitvec (w : Nat) (hw : w ≤ 64) (x y : BitVec w) :
+    shl (ofBV x) (ofBV y) = some (ofBV (x <<< y)) := shl_ofBV hw x y
+theorem C13.lshr_eq_bitvec (w : Nat) (x y : BitVec w) :
+    lshr (ofBV x) (ofBV y) = some (ofBV (x >>> y)) := lshr_ofBV x y
+theorem C13.ashr_eq_bitvec (w : Nat) (h1 : 1 ≤ w) (hw : w ≤ 64) (x y : BitVec w) :
+    ashr (ofBV x) (ofBV y) = some (ofBV (x.sshiftRight' y)) := ashr_ofBV h1 hw x y
+/-- an amount of the width or more shifts everything out: 0, or the sign fill for `ashr` -/
+theorem C13.shift_amount_ge_width (w : Nat) (h1 : 1 ≤ w) (hw : w ≤ 64) (x y : BitVec w) (hs : w ≤ y.toNat) :
+    shl (ofBV x) (ofBV y) = some (ofBV (0 : BitVec w)) ∧
+    lshr (ofBV x) (ofBV y) = some (ofBV (0 : BitVec w)) ∧
+    ashr (ofBV x) (ofBV y) = some (ofBV (if x.msb then BitVec.allOnes w else 0)) := by
+  refine ⟨?_, ?_, ?_⟩
+  · rw [shl_ofBV hw, BitVec.shiftLeft_eq', bv_shl_ge x hs]
+  · rw [lshr_ofBV, BitVec.ushiftRight_eq', bv_lshr_ge x hs]
+  · rw [ashr_ofBV h1 hw, BitVec.sshiftRight_eq', bv_ashr_ge x hs]
 
 /-! ## extensions and truncation -/
 
@@ -218,7 +209,7 @@ theorem C13.reduced_preserved_ring (a b r : WrapInt) (hw : a.width ≤ 64)
     · cases h
   · subst h; exact neg_reduced hw
 theorem C13.reduced_preserved_div_bitwise (a b r : WrapInt) (ha : a.Reduced) (hb : b.Reduced)
-    (hw : a.width ≤ 64)
+    (h1 : 1 ≤ a.width) (hw : a.width ≤ 64)
     (h : udiv a b = some r ∨ urem a b = some r ∨ sdiv a b = some r ∨ srem a b = some r ∨
          WrapInt.and a b = some r ∨ WrapInt.or a b = some r ∨ WrapInt.xor a b = some r ∨
          lshr a b = some r ∨ ashr a b = some r) : r.Reduced := by
@@ -231,7 +222,7 @@ theorem C13.reduced_preserved_div_bitwise (a b r : WrapInt) (ha : a.Reduced) (hb
   · exact or_reduced ha hb h
   · exact xor_reduced ha hb h
   · exact lshr_reduced ha h
-  · exact ashr_reduced ha h
+  · exact ashr_reduced ha h1 hw h
 theorem C13.reduced_preserved_casts (a r : WrapInt) (k : Nat) (ha : a.Reduced) (hw : a.width ≤ 64)
     (h : zext a k = some r ∨ sext a k = some r ∨ keepLower a k = some r) : r.Reduced := by
   have h64 : a.n < 2 ^ 64 := Nat.lt_of_lt_of_le ha (pow_le_64 hw)
@@ -253,4 +244,5 @@ example : (ofBV 200#8).WF ∧ (ofBV 200#8).Reduced ∧
     ashr (ofBV 128#8) (ofBV 1#8) = some (ofBV 192#8) ∧
     sdiv (ofBV (BitVec.intMin 64)) (ofBV (BitVec.allOnes 64)) = some (ofBV (BitVec.intMin 64)) ∧
     sext (ofBV 128#8) 8 = some (ofBV 0xFF80#16) ∧
+    shl (ofBV 5#16) (ofBV 70#16) = some (ofBV 0#16) ∧ ashr (ofBV 128#8) (ofBV 9#8) = some (ofBV 255#8) ∧
     ofZ? (-129) 8 = some (ofBV 127#8) := by decide
